@@ -10,7 +10,8 @@
 (* writers (Etf!Encode, DistHeader!MsgBytes), never from the library.      *)
 (***************************************************************************)
 EXTENDS DistHeader, Control, EtfTables, Json, IOUtils
-CONSTANTS MaxFrames, HeaderMode
+CONSTANTS MaxFrames, HeaderMode,
+          Targeted     \* TRUE: only header frames that define / re-use cache entries in two segments, over three messages (exhaustive)
 PeerN == VAtom(<<112, 101, 101, 114, 64, 49, 50, 55, 46, 48, 46, 48, 46, 49>>)
 LocN == VAtom(<<110, 49, 64, 49, 50, 55, 46, 48, 46, 48, 46, 49>>)
 RP == VPid(PeerN, <<0,0,0,1>>, <<0,0,0,2>>, <<0,0,0,3>>, <<>>)
@@ -28,10 +29,14 @@ Msgs == << <<VTuple(<<SmallInt(2), E0, LP>>), VAtom(<<104, 105>>)>>,
 PT(m) == <<112>> \o Encode(m[1]) \o (IF Len(m) = 2 THEN Encode(m[2]) ELSE <<>>)
 \* fixed cache layout: the i-th distinct atom (in byte order) of a message lives in segment 0, index 10 + i
 AtomSeq(m) == SetToSortSeq(UNION {AtomsIn(m[i]) : i \in 1..Len(m)}, LAMBDA x, y : BytesLess(x, y))
-RefsNew(m) == LET as == AtomSeq(m) IN [i \in 1..Len(as) |-> [seg |-> 0, idx |-> 10 + i, new |-> TRUE, atom |-> as[i]]]
-RefsOld(m) == LET as == AtomSeq(m) IN [i \in 1..Len(as) |-> [seg |-> 0, idx |-> 10 + i, new |-> FALSE, atom |-> as[i]]]
+\* (kinds with suffix _s3: the same internal indices in segment 3 -- entries of different segments never alias)
+RefsNewS(m, sg) == LET as == AtomSeq(m) IN [i \in 1..Len(as) |-> [seg |-> sg, idx |-> 10 + i, new |-> TRUE, atom |-> as[i]]]
+RefsOldS(m, sg) == LET as == AtomSeq(m) IN [i \in 1..Len(as) |-> [seg |-> sg, idx |-> 10 + i, new |-> FALSE, atom |-> as[i]]]
+RefsNew(m) == RefsNewS(m, 0)
+RefsOld(m) == RefsOldS(m, 0)
 HDR(m) == MsgBytes(RefsNew(m), m)
 HDRReuse(m) == MsgBytes(RefsOld(m), m)
+SegOf(k) == IF k \in {"hdr_s3", "hdr_reuse_s3"} THEN 3 ELSE 0
 U64(n) == <<0, 0, 0, 0>> \o U32(n)
 \* fragments of the header-mode message: data = everything after <<131, 68>>, cut into n pieces, ids n .. 1
 Frags(m, n, sq) ==
@@ -50,21 +55,25 @@ JunkBytes(k) ==
 VARIABLES hist, slots, fragSeen, nfr
 gvars == <<hist, slots, fragSeen, nfr>>
 GInit == hist = <<>> /\ slots = <<>> /\ fragSeen = FALSE /\ nfr = 0 /\ HInit
-Kinds == IF HeaderMode THEN {"hdr", "hdr_reuse", "frag2", "frag3", "tick"} ELSE {"pt", "tick"}
+Kinds == IF Targeted THEN {"hdr", "hdr_reuse", "hdr_s3", "hdr_reuse_s3"}
+         ELSE IF HeaderMode THEN {"hdr", "hdr_reuse", "hdr_s3", "hdr_reuse_s3", "frag2", "frag3", "tick"} ELSE {"pt", "tick"}
+MsgIdx == IF Targeted THEN {1, 3, 4} ELSE 1..Len(Msgs)
+DefKinds == {"hdr", "hdr_s3"}
+ReuseKinds == {"hdr_reuse", "hdr_reuse_s3"}
 \* the sender's view of the cache after a header frame with new entries
-Defines(m, sl) == FoldLeft(LAMBDA c, r : (Slot(r) :> r.atom) @@ c, sl, RefsNew(m))
-Matches(m, sl) == \A j \in 1..Len(RefsOld(m)) : LET r == RefsOld(m)[j] IN Slot(r) \in DOMAIN sl /\ sl[Slot(r)] = r.atom
+Defines(m, sl, sg) == FoldLeft(LAMBDA c, r : (Slot(r) :> r.atom) @@ c, sl, RefsNewS(m, sg))
+Matches(m, sl, sg) == \A j \in 1..Len(RefsOldS(m, sg)) : LET r == RefsOldS(m, sg)[j] IN Slot(r) \in DOMAIN sl /\ sl[Slot(r)] = r.atom
 Step(k, i) == /\ nfr < MaxFrames /\ nfr' = nfr + 1 /\ hist' = Append(hist, <<k, i>>)
               \* a reference to earlier entries needs them to be what the sender thinks they are; fragmented messages
               \* (known finding C06-fragments) are kept out of the way of cache re-use
-              /\ (k = "hdr_reuse" => (i > 0 /\ ~fragSeen /\ Matches(Msgs[i], slots)))
-              /\ slots' = IF k = "hdr" THEN Defines(Msgs[i], slots) ELSE slots
+              /\ (k \in ReuseKinds => (i > 0 /\ ~fragSeen /\ Matches(Msgs[i], slots, SegOf(k))))
+              /\ slots' = IF k \in DefKinds THEN Defines(Msgs[i], slots, SegOf(k)) ELSE slots
               /\ fragSeen' = (fragSeen \/ k \in {"frag2", "frag3"})
-GNext == ((\E k \in Kinds, i \in 1..Len(Msgs) : Step(k, i)) \/ (\E k \in JunkKinds : Step(k, 0))) /\ UNCHANGED hvars
+GNext == ((\E k \in Kinds, i \in MsgIdx : Step(k, i)) \/ (~Targeted /\ \E k \in JunkKinds : Step(k, 0))) /\ UNCHANGED hvars
 GSpec == GInit /\ [][GNext]_<<gvars, hvars>>
 \* frames (bytes) and surfaced results of a finished scenario
 FramesOf(h) == LET f(j) == LET k == h[j][1]  i == h[j][2] IN
-                  CASE k = "pt" -> <<PT(Msgs[i])>> [] k = "hdr" -> <<HDR(Msgs[i])>> [] k = "hdr_reuse" -> <<HDRReuse(Msgs[i])>>
+                  CASE k = "pt" -> <<PT(Msgs[i])>> [] k \in DefKinds -> <<MsgBytes(RefsNewS(Msgs[i], SegOf(k)), Msgs[i])>> [] k \in ReuseKinds -> <<MsgBytes(RefsOldS(Msgs[i], SegOf(k)), Msgs[i])>>
                     [] k = "frag2" -> Frags(Msgs[i], 2, j) [] k = "frag3" -> Frags(Msgs[i], 3, j) [] k = "tick" -> << <<>> >>
                     [] OTHER -> <<JunkBytes(k)>>
                IN FoldLeft(LAMBDA acc, j : acc \o f(j), <<>>, [j \in 1..Len(h) |-> j])
